@@ -264,9 +264,9 @@ func xbindingsOf(cs []xclause) []string {
 var allTemporal bool
 
 // symDataX is symData with a choice of object kinds.
-func symDataX(name string, temporal bool, okinds []int, na int) *dspec {
-	if na == 0 {
-		na = baseAnchors
+func symDataX(name string, temporal bool, okinds []int, aset []int) *dspec {
+	if len(aset) == 0 {
+		aset = []int{0, 1}
 	}
 	d := &dspec{sb: verif.Byte(name + ".s"), pb: verif.Byte(name + ".p"), ob: verif.Byte(name + ".o")}
 	verif.Assume(verif.And(alphaB(d.sb), verif.And(alphaB(d.pb), alphaB(d.ob))))
@@ -276,7 +276,7 @@ func symDataX(name string, temporal bool, okinds []int, na int) *dspec {
 			d.pk = verif.Choice(name+".pk", 2)
 		}
 		if d.pk == 1 {
-			d.pa = verif.Choice(name+".pa", na)
+			d.pa = aset[verif.Choice(name+".pa", len(aset))]
 		}
 	}
 	d.ok = okinds[0]
@@ -536,7 +536,7 @@ func HarnessC03Extract() {
 	K := 1 + verif.Choice("k", verif.Param("K", 2))
 	data := make([]*dspec, K)
 	for i := range data {
-		data[i] = symDataX("d", sh.temporal, sh.okinds, 0)
+		data[i] = symDataX("d", sh.temporal, sh.okinds, nil)
 	}
 	g := noWindow
 	if len(sh.global) > 0 {
